@@ -220,8 +220,10 @@ Fixpoint req_raised_at (t : list event) : option nat :=
   | _ :: tl => req_raised_at tl
   end.
 
-Definition meta_rejected (t : list event) : bool :=
-  match t with EHandler SMeta _ :: _ => true | _ => false end.
+Definition is_meta_ev (e : event) : bool :=
+  match e with EHandler SMeta _ => true | _ => false end.
+
+Definition meta_rejected (t : list event) : bool := existsb is_meta_ev t.
 
 (* which response methods are due, bottom-up, judged from the observed trace itself *)
 Definition due_resp (indep : bool) (cs : list comp) (t : list event) : list nat :=
